@@ -615,7 +615,7 @@ func longClose(want, got *big.Float) bool {
 	if want.Sign() == 0 || got.Sign() == 0 || want.IsInf() || got.IsInf() {
 		return false
 	}
-	d := new(big.Float).SetPrec(want.Prec() + got.Prec() + 64).Sub(want, got)
+	d := new(big.Float).SetPrec(want.Prec()+got.Prec()+64).Sub(want, got)
 	d.Abs(d)
 	// ulp of want = 2^(exp - prec) where want = mant * 2^exp, 0.5 <= mant < 1
 	exp := want.MantExp(nil)
